@@ -2374,22 +2374,25 @@ impl R2 {
         r
     }
 
+    pub fn update_adl_ix(&self, mi: usize, is_long: bool) -> Instruction {
+        let m = &self.mkts[mi];
+        let mut ix = st::ix(
+            gmsol_store::accounts::UpdateAdlState { authority: self.keeper, store: self.store, token_map: self.token_map, oracle: self.oracle, market: m.market, chainlink_program: None },
+            gmsol_store::instruction::UpdateAdlState { is_long },
+        );
+        let mut tokens = vec![self.toks[m.index].mint, self.toks[m.long].mint, self.toks[m.short].mint];
+        tokens.sort();
+        tokens.dedup();
+        ix.accounts.extend(self.exec_remaining(&tokens, &[], &m.market_token));
+        ix
+    }
+
     pub fn flow_update_adl(&self, w: &mut World, rec: &mut dyn Recorder, mi: usize, is_long: bool) -> ExecResult {
-        let m = self.mkts[mi].clone();
         self.tick(w);
         let keeper = self.keeper;
         let info = Info { op: "update_adl_state".into(), touched: vec![mi], side: "none".into(), direction: "cut".into(), current: Some(mi), ..Default::default() };
-        rec.exec(w, &info, &mut |w: &mut World| {
-            let mut ix = st::ix(
-                gmsol_store::accounts::UpdateAdlState { authority: keeper, store: self.store, token_map: self.token_map, oracle: self.oracle, market: m.market, chainlink_program: None },
-                gmsol_store::instruction::UpdateAdlState { is_long },
-            );
-            let mut tokens = vec![self.toks[m.index].mint, self.toks[m.long].mint, self.toks[m.short].mint];
-            tokens.sort();
-            tokens.dedup();
-            ix.accounts.extend(self.exec_remaining(&tokens, &[], &m.market_token));
-            w.execute(&ix, &[keeper])
-        })
+        let ix = self.update_adl_ix(mi, is_long);
+        rec.exec(w, &info, &mut |w: &mut World| w.execute(&ix, &[keeper]))
     }
 
     /// recorded `update_market_config`
